@@ -411,6 +411,8 @@ def run_unit(pid, unit, tier, keep=False, verbose=False):
                 raise Inconclusive('goto-instrument loop contracts failed: ' + out[-3000:])
             cur = nxt
         flags = [f for f in BASE_CHECKS if f not in unit.get('no_flags', [])] + unit.get('flags', [])
+        if not unit.get('malloc_may_fail'):
+            flags.append('--no-malloc-may-fail')   # A-alloc: allocation succeeds unless the unit asks otherwise
         if not unit.get('no_slice'):
             flags.append('--slice-formula')
         sat = tier_val(unit, 'sat', tier, 'cadical')
@@ -595,6 +597,8 @@ def main(argv):
     results.sort(key=lambda t: [u['name'] for u in units].index(t[0]['name']))
 
     outdir = os.path.join(VERIF, 'out', 'replay', pid)
+    if not a.unit:
+        shutil.rmtree(outdir, ignore_errors=True)
     os.makedirs(outdir, exist_ok=True)
     violations = []
     known_hits = []
